@@ -518,6 +518,44 @@ pub fn run(args: &Args) -> i32 {
         rep.add("u8_domains", n);
         rep.evals += n;
 
+        // --- the sampling-frequency index as the reader hands it to the mapping: every raw
+        // 4-bit index written into an AudioSpecificConfig by the reference encoder (index 15
+        // with each of the 13 table rates and some others as the explicit rate that follows it;
+        // plain and escaped object types) must come out of the esds decoder as that same index,
+        // so that the mapping accepts exactly 0..=12 - the escape value 15 names no table entry,
+        // whatever rate follows it.
+        #[cfg(feature = "hooks")]
+        {
+            let mut n = 0u64;
+            let mut rng = crate::prng::Rng::new(args.seed ^ 0xF4E9);
+            for raw in 0..16u8 {
+                let rates: Vec<u32> = if raw == 15 { freqs.iter().cloned().chain([0u32, 1, 47_999, 48_001, 0xFF_FFFF, 44_100 << 1, 375]).collect() } else { vec![0] };
+                for rate in rates {
+                    for aot in [2u8, 5, 29, 34, 42] {
+                        let mut f = crate::boxgen::gen_esds_f(&mut rng, false, false);
+                        f.aot = aot;
+                        f.freq_index = raw;
+                        f.freq = rate;
+                        f.chan = 2;
+                        let bytes = crate::refenc::serialize_one(&crate::refenc::enc_esds(&f));
+                        match crate::props::boxes::decode::<mp4::verif_export::EsdsBox>(&bytes) {
+                            Ok((v, _)) => {
+                                let got = v.es_desc.dec_config.dec_specific.freq_index;
+                                let accepted = SampleFreqIndex::try_from(got).is_ok();
+                                if got != raw || accepted != (raw <= 12) {
+                                    fail(&mut rep, "freq", Fail { rule: "freq_index_through_the_esds_reader", detail: json!({"raw": raw, "explicit_rate": rate, "aot": aot, "decoded_index": got, "mapping_accepts": accepted}) });
+                                }
+                            }
+                            Err(e) => fail(&mut rep, "freq", Fail { rule: "freq_index_through_the_esds_reader", detail: json!({"raw": raw, "explicit_rate": rate, "aot": aot, "decode_error": e}) }),
+                        }
+                        n += 1;
+                    }
+                }
+            }
+            rep.add("freq_indices_through_the_esds_reader", n);
+            rep.evals += n;
+        }
+
         // --- track kind / media kind textual mappings
         let mut n = 0u64;
         let alphabet: Vec<u8> = (b'a'..=b'z').chain(b'0'..=b'9').chain([b' ', b'A', b'V', b'H']).collect();
